@@ -322,6 +322,65 @@ def _s3(program, res):
     res.assumptions.append("polars group_by keeps null keys as a group (API contract)")
 
 
+def project_shortcut_rule(program, res, rule="C09-S7"):
+    """project_parsed_ answers with a ProjectNode (or hands the request past an un-limited order_rows).  Any other answer — "the rows are already unique on these keys,
+    a select_columns will do" — is right only if the node below is keyed by a *subset* of the requested keys (rows unique on {a} are unique on {a, b}); a test that the
+    requested keys are a subset of the node's keys has it backwards: project(group_by=[a, b]).project({}, group_by=[a]) would return one row per (a, b)"""
+    mod = program.module("view_representations")
+    pp = program.method("view_representations", "ViewRepresentation", "project_parsed_", inherited=False)
+    res.analysed(pp)
+    g = cfgmod.build(pp.node)
+    n = 0
+    for r in g.returns():
+        v = r.stmt.value
+        callee = dotted_name(v.func) if isinstance(v, ast.Call) else None
+        if callee == "ProjectNode" or (isinstance(v, ast.Call) and isinstance(v.func, ast.Attribute) and v.func.attr == "project_parsed_"):
+            n += 1
+            continue
+        n += 1
+        # a shortcut: which uniqueness test guards it?
+        verdict = None
+        for b, lab in g.lexical_guards(r):
+            for c in ast.walk(b.cond):
+                if isinstance(c, ast.Call) and isinstance(c.func, ast.Attribute) and unparse(c.func.value) == "self":
+                    for cls in mod.classes.values():
+                        m = cls.methods.get(c.func.attr)
+                        if m is None:
+                            continue
+                        ps = [p for p in m.params() if p != "self"]
+                        for t in ast.walk(m.node):
+                            sub = sup = None
+                            if isinstance(t, ast.Call) and isinstance(t.func, ast.Attribute) and t.func.attr == "issubset" and t.args:
+                                sub, sup = t.func.value, t.args[0]
+                            elif isinstance(t, ast.Call) and isinstance(t.func, ast.Attribute) and t.func.attr == "issuperset" and t.args:
+                                sup, sub = t.func.value, t.args[0]
+                            elif isinstance(t, ast.Compare) and len(t.ops) == 1 and isinstance(t.ops[0], (ast.LtE, ast.Lt)):
+                                sub, sup = t.left, t.comparators[0]
+                            elif isinstance(t, ast.Compare) and len(t.ops) == 1 and isinstance(t.ops[0], (ast.GtE, ast.Gt)):
+                                sup, sub = t.left, t.comparators[0]
+                            if sub is None:
+                                continue
+                            sub_is_arg = any(isinstance(x, ast.Name) and x.id in ps for x in ast.walk(sub))
+                            sup_is_own = "self." in unparse(sup)
+                            sub_is_own = "self." in unparse(sub)
+                            sup_is_arg = any(isinstance(x, ast.Name) and x.id in ps for x in ast.walk(sup))
+                            if sub_is_arg and sup_is_own:
+                                verdict = ("backwards", cls.name, m, t)
+                            elif sub_is_own and sup_is_arg and verdict is None:
+                                verdict = ("ok", cls.name, m, t)
+        if verdict and verdict[0] == "backwards":
+            res.fail_at(rule, pp, "project-shortcut-uniqueness-backwards",
+                        f"project_parsed_ answers `{unparse(v)[:50]}` instead of a ProjectNode when {verdict[1]}.{verdict[2].name} says the rows are unique on the requested keys, and that "
+                        f"test is `{unparse(verdict[3])[:60]}`: the requested keys inside the node's keys — rows unique on (a, b) are not unique on (a), so "
+                        f"project(…, group_by=[a, b]).project({{}}, group_by=[a]) returns one row per (a, b)", r.stmt)
+        elif verdict and verdict[0] == "ok":
+            res.ok(rule, f"project_parsed_ replaces the project by `{unparse(v)[:40]}` only when the node's keys are among the requested keys")
+        else:
+            res.fail_at(rule, pp, "project-replaced-by-other-step",
+                        f"project_parsed_ can answer `{unparse(v)[:60]}` instead of a ProjectNode, and no uniqueness test of the node below guards it", r.stmt)
+    res.expect_count(rule, "returns of project_parsed_", n, 2)
+
+
 def run(program, res, tier):
     res.rule("C09-S1", "SQL project: all group keys selected and grouped, never filtered by the pruning set; un-grouped project stays aggregating")
     res.rule("C09-S2", "Pandas groupby on user keys keeps the null-key group")
@@ -340,6 +399,8 @@ def run(program, res, tier):
     res.rule("C09-S5", "an extend that contains an aggregate anywhere is windowed (SQL emits OVER, so N rows stay N rows)")
     from . import c26
     c26.windowed_classification_rules(program, res, rule="C09-S5")
+    res.rule("C09-S7", "a project is answered by a ProjectNode, or by another step only under a uniqueness test in the right direction")
+    project_shortcut_rule(program, res)
     res.rule("C09-S6", "two windowed extends share a node only when they have the same partition: each row's value stays computed over its own group")
     from . import c06
     c06.partition_merge_rule(program, Relabel(res, {"*": "C09-S6"}))
